@@ -209,16 +209,21 @@ func c20Run(c C20Case, st *kit.Stats) error {
 					defer cw.Done()
 					nonce := fmt.Sprintf("storm-%d-%d", cycle, i)
 					cn.Write(append(kit.EncodeCmd("SET", "written-after-close", nonce), kit.EncodeCmd("ECHO", nonce)...))
-					raw := string(cn.Drain(150 * time.Millisecond))
+					rawb, closed := cn.DrainClosed(3 * time.Second)
 					cn.Close()
-					if strings.Contains(raw, nonce) {
+					if strings.Contains(string(rawb), nonce) {
 						served <- nonce
+					} else if !closed {
+						served <- "(left open) " + nonce
 					}
 				}(i, cn)
 			}
 			cw.Wait()
 			close(served)
 			if n, ok := <-served; ok {
+				if strings.HasPrefix(n, "(left open)") {
+					return fmt.Errorf("cycle %d: a connection opened while the emulator was terminating (one of %d) is still open 3 s after termination returned", cycle, len(stormConns))
+				}
 				return fmt.Errorf("cycle %d: a connection opened while the emulator was terminating (one of %d) is still served after termination returned: it got the reply to ECHO %s", cycle, len(stormConns), n)
 			}
 		}
@@ -246,10 +251,14 @@ func c20Run(c C20Case, st *kit.Stats) error {
 			req = append(req, kit.EncodeCmd("SET", "written-after-close", nonce)...)
 			req = append(req, kit.EncodeCmd("ECHO", nonce)...)
 			cn.Write(req)
-			raw := string(cn.Drain(150 * time.Millisecond))
+			rawb, closed := cn.DrainClosed(3 * time.Second)
+			raw := string(rawb)
 			cn.Close()
 			if strings.Contains(raw, nonce) {
 				return fmt.Errorf("cycle %d: a connection that existed before termination (state %s) was still served after termination returned: it got the reply to ECHO %s", cycle, c20StateNames[c.States[i]], nonce)
+			}
+			if !closed {
+				return fmt.Errorf("cycle %d: a connection that existed before termination (state %s) is still open 3 s after termination returned: the client sees neither EOF nor a reset, and what it sends goes nowhere", cycle, c20StateNames[c.States[i]])
 			}
 		}
 		if other != nil {
